@@ -82,3 +82,12 @@ func verifPBFrame(w io.Writer, r io.Reader, env *Envelope) (y *Envelope, wErr, r
 	y, rErr = readEnvelope(r)
 	return y, nil, rErr
 }
+
+func verifPBState(x *channel.State) (y *channel.State, fromErr, toErr error) {
+	p, err := FromState(x)
+	if err != nil {
+		return nil, err, nil
+	}
+	y, toErr = ToState(p)
+	return y, nil, toErr
+}
